@@ -188,4 +188,110 @@ def fileAtEnd (fs : FS) (f : File) : File := { f with pos := (fileContent fs f).
     it uses the handle again) -/
 def scanFile (fs : FS) (f : File) : File × Scanner := (fileAtEnd fs f, Scanner.new (fileContent fs f))
 
+/-! ## Go maps, the registries, `testing.T`, and the state the Match* flows act on -/
+
+/-- `map[string]int`; a missing key reads as 0 -/
+abbrev Map1 := List (Text × Int)
+
+def map1Get : Map1 → Text → Int
+  | [], _ => 0
+  | (k', v) :: m, k => if k' = k then v else map1Get m k
+
+def map1Set : Map1 → Text → Int → Map1
+  | [], k, v => [(k, v)]
+  | (k', v') :: m, k, v => if k' = k then (k, v) :: m else (k', v') :: map1Set m k v
+
+/-- `m[k]++` on a non-nil map -/
+def map1Inc (m : Map1) (k : Text) : Map1 := map1Set m k (map1Get m k + 1)
+
+/-- `map[string]map[string]int` -/
+abbrev Map2 := List (Text × Map1)
+
+/-- `_, exists := m[a]` -/
+def map2Has (m : Map2) (a : Text) : Bool := m.any (·.1 = a)
+
+/-- `m[a]` (a missing key reads as the nil map, which reads as empty) -/
+def map2Inner : Map2 → Text → Map1
+  | [], _ => []
+  | (k, inner) :: m, a => if k = a then inner else map2Inner m a
+
+/-- `m[a] = inner` -/
+def map2SetInner : Map2 → Text → Map1 → Map2
+  | [], a, inner => [(a, inner)]
+  | (k, i') :: m, a, inner => if k = a then (a, inner) :: m else (k, i') :: map2SetInner m a inner
+
+/-- `m[a][b]` -/
+def map2Get (m : Map2) (a b : Text) : Int := map1Get (map2Inner m a) b
+
+/-- `m[a][b] = v`; `none` = panic: assignment to entry in nil map (`m[a]` does not exist) -/
+def map2Set (m : Map2) (a b : Text) (v : Int) : Option Map2 :=
+  if map2Has m a then some (map2SetInner m a (map1Set (map2Inner m a) b v)) else none
+
+/-- `m[a][b]++` -/
+def map2Inc (m : Map2) (a b : Text) : Option Map2 := map2Set m a b (map2Get m a b + 1)
+
+/-- `syncRegistry` (the embedded mutex is not state of the sequential semantics) -/
+structure Registry where
+  running : Map2 := []
+  cleanup : Map2 := []
+deriving Repr, DecidableEq
+
+/-- `syncStandaloneRegistry` -/
+structure SRegistry where
+  running : Map1 := []
+  cleanup : Map1 := []
+deriving Repr, DecidableEq
+
+/-- `fmt.Sprintf(format, n)` with a format that is NOT a literal of the source (the standalone
+    path): the model's interpreter; `none` = the format uses a feature outside the modelled
+    fragment (never a default) -/
+def sprintfInt (format : Text) (n : Int) : Option Text :=
+  if n < 0 then none else sprintf format [.d n.toNat]
+
+/-- the closures passed to `t.Cleanup` -/
+inductive Cleanup
+  | resetReg (snapPath testName : Text)
+  | resetSReg (snapPath : Text)
+deriving Repr, DecidableEq
+
+/-- a `testingT`: its name and the identity of the execution (cleanups run when it ends) -/
+structure T where
+  name : Text
+  id : Nat
+deriving Repr, DecidableEq
+
+/-- a `match.JSONMatcher` / `match.YAMLMatcher` value: opaque (what it does to a document is a
+    parameter of the translated functions) -/
+abbrev Matcher := Nat
+
+/-- `prettyDiff(expected, received, snapPath, line)` with Go's `int` line number -/
+def prettyDiffI (a b rel : Text) (line : Int) : Text := prettyDiff a b rel line.toNat
+
+/-- `match.MatcherError` -/
+structure MErr where
+  reason : Err
+  matcher : Text
+  path : Text
+deriving Repr, DecidableEq
+
+/-- everything a Match* call can read or change -/
+structure St where
+  env : Generated.Env
+  fs : FS := []
+  reg : Registry := {}
+  sreg : SRegistry := {}
+  events : Map1 := []                 -- testEvents.items, keyed by the event kind's name
+  skipped : List Text := []           -- skippedTests.values
+  cleanups : List (Nat × Cleanup) := []
+  tev : List TEvent := []             -- what the calls reported to their testing.T, oldest first
+
+/-- `t.Log(x)` -/
+def St.tLog (st : St) (_t : T) (x : Text) : St := { st with tev := st.tev ++ [.log x] }
+/-- `t.Error(x)` -/
+def St.tError (st : St) (_t : T) (x : Text) : St := { st with tev := st.tev ++ [.error x] }
+/-- `t.Cleanup(f)` -/
+def St.tCleanup (st : St) (t : T) (c : Cleanup) : St := { st with cleanups := (t.id, c) :: st.cleanups }
+/-- `testEvents.register(kind)`: `e.items[event]++` under the events mutex -/
+def St.register (st : St) (kind : Text) : St := { st with events := map1Inc st.events kind }
+
 end GoSnaps.GoIO
